@@ -159,8 +159,39 @@ func checkC06(c *Ctx) {
 		c.R.Break("R-lock-balanced examined only %d acquisitions", nAcq)
 	}
 
+	// ---- R-unbounded-input: a server-side reader of peer input must not give up on a long line
+	nSc := 0
+	for _, fn := range fns {
+		ir.EachInstr(fn, func(_ *ssa.BasicBlock, _ int, in ssa.Instruction) {
+			call, ok := in.(*ssa.Call)
+			if !ok || ir.CallName(call) != "bufio.NewScanner" {
+				return
+			}
+			nSc++
+			unlimited := false
+			for _, r := range *call.Referrers() {
+				if rc, ok := r.(*ssa.Call); ok && ir.CallName(rc) == "(*bufio.Scanner).Buffer" {
+					if max, ok := ir.ConstInt(rc.Call.Args[2]); ok && max >= 1<<30 {
+						unlimited = true
+					}
+				}
+			}
+			c.R.Check(unlimited, "R-unbounded-input", "scanner in "+fname(fn), c.Pos(call.Pos()), "token limit of at least 1 GiB",
+				sprintf("%s reads the peer's input with a length-limited bufio.Scanner: one line longer than the limit makes Scan fail with ErrTooLong for good, the serve loop ends and no later request is answered", fname(fn)))
+		})
+	}
+	if nSc == 0 {
+		c.R.Hold("R-unbounded-input", "no length-limited scanner on peer input", "", "server-side readers use bufio.Reader")
+	}
+
 	// ---- R-lock-order
 	edges := lockOrderEdges(c, fns)
+	nested, reentries := nestedThroughCallees(c, fns)
+	edges = append(edges, nested...)
+	for _, r := range reentries {
+		c.R.Violate("R-lock-order", sprintf("%s calls %s while holding %s", fname(r.fn), fname(r.callee), r.key), c.Pos(r.call.Pos()),
+			sprintf("%s calls %s while it holds %s, and %s (or a function it calls) locks the same mutex of the same object again: Go mutexes are not re-entrant, the request deadlocks and takes every later request that needs the lock with it", fname(r.fn), fname(r.callee), r.key, fname(r.callee)))
+	}
 	cyc := lockCycles(edges)
 	seenE := map[string]bool{}
 	for _, e := range edges {
